@@ -5,6 +5,8 @@ VERIF = os.path.dirname(os.path.dirname(os.path.abspath(__file__)))
 rows = []
 for m in sorted(glob.glob(os.path.join(VERIF, 'seeded', '*', 'meta.json'))):
     d = json.load(open(m))
+    if d.get('breaks_property') == 'none':
+        continue
     obl = [l for l in d.get('check_output', []) if l.startswith('VIOLATION')]
     names = []
     for l in obl:
@@ -12,8 +14,12 @@ for m in sorted(glob.glob(os.path.join(VERIF, 'seeded', '*', 'meta.json'))):
             if part.startswith('obligation='):
                 names.append(part.split('=', 1)[1])
     und = [l for l in d.get('check_output', []) if l.startswith('UNDECIDED')]
+    first = d.get('first_run')
+    fr = ''
+    if first is not None and not first.get('detected'):
+        fr = ' (first run: ' + ('undecided, exit 2' if any(l.startswith('UNDECIDED') for l in first.get('check_output') or []) else 'missed') + ')'
     rows.append('| %s | %s | %s | %s | %s |' % (d['seed'], d['breaks_property'], d['needs_to_manifest'].replace('|', '/'),
-                                             'yes' if d['detected'] else ('undecided (exit 2)' if und else '**no**'),
+                                             ('yes' if d['detected'] else ('undecided (exit 2)' if und else '**no**')) + fr,
                                              ', '.join('`%s`' % n for n in names[:4]) + (' ...' if len(names) > 4 else '')))
 print('| seeded change | property | needs, in order to manifest | detected by the quick check | failed obligations |')
 print('|---|---|---|---|---|')
